@@ -12,6 +12,8 @@ import (
 	"testing/synctest"
 	"time"
 
+	"github.com/DataDog/datadog-traceroute/icmp"
+	"github.com/DataDog/datadog-traceroute/packets"
 	"github.com/DataDog/datadog-traceroute/result"
 	"github.com/DataDog/datadog-traceroute/traceroute"
 )
@@ -85,10 +87,15 @@ func sharedRouter6(key, k int) [16]byte {
 	return a
 }
 
-func (n *sharedNet) add(h *wireHandle) {
+// add registers a capture handle and returns the number of the socket pair (1..30, then around again): the routers of the
+// lab put it into the upper bits of their address' last byte, so a reply to a probe that left through another run's socket
+// is recognisable even when both runs use the same flow identifier
+func (n *sharedNet) add(h *wireHandle) int {
 	n.mu.Lock()
 	n.handles = append(n.handles, h)
+	k := (len(n.handles)-1)%30 + 1
 	n.mu.Unlock()
+	return k
 }
 
 func (n *sharedNet) deliver(pkt []byte, at time.Time) {
@@ -102,7 +109,7 @@ func (n *sharedNet) deliver(pkt []byte, at time.Time) {
 }
 
 // onProbe answers one probe the way an RFC-conformant path would.
-func (n *sharedNet) onProbe(p outPkt) {
+func (n *sharedNet) onProbe(p outPkt, sock int) {
 	b := p.data
 	n.mu.Lock()
 	n.probes++
@@ -140,7 +147,7 @@ func (n *sharedNet) onProbe(p outPkt) {
 			}
 			q := append([]byte(nil), b[:ihl+8]...)
 			q[8] = 1
-			reply = buildIP4(ip4Hdr{ttl: byte(64 - ttl), proto: 1, src: sharedRouter4(key, ttl), dst: src, id: uint16(key + ttl)}, buildICMP4(11, 0, [4]byte{}, q))
+			reply = buildIP4(ip4Hdr{ttl: byte(64 - ttl), proto: 1, src: sharedRouter4(key, ttl+8*sock), dst: src, id: uint16(key + ttl)}, buildICMP4(11, 0, [4]byte{}, q))
 		} else {
 			switch proto {
 			case 1:
@@ -200,7 +207,7 @@ func (n *sharedNet) onProbe(p outPkt) {
 			if ttl == silent {
 				return
 			}
-			r := sharedRouter6(key, ttl)
+			r := sharedRouter6(key, ttl+8*sock)
 			reply = buildIP6(ip6Hdr{nh: 58, hlim: byte(64 - ttl), src: r, dst: src, payLen: -1}, buildICMP6(3, 0, quote(), r, src))
 		} else if nh == 58 {
 			reply = buildIP6(ip6Hdr{nh: 58, hlim: 60, src: dst, dst: src, payLen: -1}, buildICMP6(129, 0, l4[4:], dst, src))
@@ -238,7 +245,7 @@ func hopsSx(hs []*result.TracerouteHop) sx {
 
 var nwPorts *sharedNet // the network of the scenario being run (labs run one scenario at a time)
 
-func runShared(t *testing.T, runs []sharedRun, filterOn bool, slow int) (sx, sx, int, int) {
+func runShared(t *testing.T, runs []sharedRun, filterOn bool, slow int, ctr int) (sx, sx, int, int) {
 	outs := make([]sx, len(runs))
 	spans := make([][2]int64, len(runs)) // virtual start and end instant of every run (ns since the scenario began)
 	probes, replies := 0, 0
@@ -247,6 +254,12 @@ func runShared(t *testing.T, runs []sharedRun, filterOn bool, slow int) (sx, sx,
 		f := &wireFactory{}
 		nw := &sharedNet{}
 		nwPorts = nw
+		if ctr > 0 {
+			// the process has handed out identifiers for a long time: the next echo identifier and the next block of IP
+			// identifications lie [ctr] below the 16-bit wrap
+			icmp.VerifSetEchoCounter(uint32(65536 - ctr))
+			packets.VerifSetPacketIDCounter(uint32(65536 - ctr))
+		}
 		f.onNew = func(h *wireHandle) {
 			h.src.applyFilter = filterOn
 			switch slow {
@@ -258,8 +271,8 @@ func runShared(t *testing.T, runs []sharedRun, filterOn bool, slow int) (sx, sx,
 				// and send their probes meanwhile
 				h.snk.acceptDelay = 3 * time.Millisecond
 			}
-			h.snk.onWrite = nw.onProbe
-			nw.add(h)
+			sock := nw.add(h)
+			h.snk.onWrite = func(p outPkt) { nw.onProbe(p, sock) }
 		}
 		defer f.install()()
 		var wg sync.WaitGroup
@@ -386,11 +399,40 @@ func runShared(t *testing.T, runs []sharedRun, filterOn bool, slow int) (sx, sx,
 		}
 		out = append(out, withSpan(heldOf(outs[j], c.proto), spans[j]))
 	}
-	return L(sxInt(18), sxInt(b2i(filterOn)+2*int64(slow)), in), L(out...), probes, replies
+	return L(sxInt(18), sxInt(b2i(filterOn)+2*int64(slow)+8*int64(ctr)), in), L(out...), probes, replies
 }
 
 func sharedScenarios(r *rng, n int, w *caseWriter, tags map[string]int, t *testing.T) {
 	protos := []string{"udp", "tcp", "icmp", "icmp", "udp"}
+	// pinned: three runs of one protocol alive together while the process-wide identifier counters cross the 16-bit wrap
+	// (what a long-lived process reaches once per 65536 identifiers), as independent runs and as the queries of one request
+	for _, proto := range []string{"icmp", "tcp", "udp"} {
+		for ctr := 1; ctr <= 5; ctr++ {
+			if proto == "udp" && ctr > 1 {
+				continue // UDP runs draw from neither counter
+			}
+			for _, grouped := range []bool{false, true} {
+				var runs []sharedRun
+				for j := 0; j < 3; j++ {
+					c := sharedRun{proto: proto, last: 6, startMs: []int{0, 0, 1}[j]}
+					if grouped {
+						c.group = 1
+						if j == 0 {
+							c.queries, c.e2e = 3, 1
+						}
+					}
+					runs = append(runs, c)
+				}
+				in, out, probes, replies := runShared(t, runs, true, 0, ctr)
+				w.put(in, out)
+				tags["shared_pinned_counters_cross_the_wrap"]++
+				tags["shared_scenarios"]++
+				tags["shared_runs"] += len(runs)
+				tags["shared_probes"] += probes
+				tags["shared_replies_broadcast"] += replies
+			}
+		}
+	}
 	for i := 0; i < n; i++ {
 		k := 2 + r.intn(4)
 		var runs []sharedRun
@@ -422,7 +464,12 @@ func sharedScenarios(r *rng, n int, w *caseWriter, tags map[string]int, t *testi
 		}
 		filterOn := r.intn(4) != 0
 		slow := []int{0, 0, 1, 2}[r.intn(4)]
-		in, out, probes, replies := runShared(t, runs, filterOn, slow)
+		ctr := 0
+		if r.intn(3) == 0 {
+			ctr = 1 + r.intn(5)
+			tags["shared_identifier_counters_at_the_wrap"]++
+		}
+		in, out, probes, replies := runShared(t, runs, filterOn, slow, ctr)
 		tags[fmt.Sprintf("shared_slow_socket_mode_%d", slow)]++
 		w.put(in, out)
 		tags["shared_scenarios"]++
